@@ -18,7 +18,7 @@ MODULE = "IwModel.Props.C19"
 THEOREMS = [
     "IwModel.C19.vnum_dec_enc", "IwModel.C19.vnum_size", "IwModel.C19.vnum_enc_wf", "IwModel.C19.vnum_thresholds_ok",
     "IwModel.C19.atoi_itoaSpec", "IwModel.C19.wrap64_id", "IwModel.C19.atoi_itoaSpec_wrap", "IwModel.C19.itoa_bounds",
-    "IwModel.C19.itoa_bounds64", "IwModel.C19.itoa_refines_spec", "IwModel.C19.atoi_itoa", "IwModel.C19.ascii2hex_ok",
+    "IwModel.C19.itoa_bounds64", "IwModel.C19.itoa_refines_spec", "IwModel.C19.atoi_itoa", "IwModel.C19.itoaSpec_length_le", "IwModel.C19.atoi_itoa64", "IwModel.C19.ascii2hex_ok",
     "IwModel.C19.hex_roundtrip", "IwModel.C19.plain_antisymm", "IwModel.C19.plain_eq_iff", "IwModel.C19.plain_compound_eq_iff",
     "IwModel.C19.plain_trans", "IwModel.C19.plain_order", "IwModel.C19.vnum_numeric", "IwModel.C19.vnum_compound_numeric",
     "IwModel.C19.vnum_total", "IwModel.C19.real_total", "IwModel.C19.real_total_linear", "IwModel.C19.real_keys_total",
